@@ -170,6 +170,15 @@ func scalarSort(t types.Type) (string, bool) {
 }
 
 func typeKey(t types.Type) string {
+	t = types.Unalias(t)
+	if b, ok := t.(*types.Basic); ok {
+		switch b.Kind() {
+		case types.Uint8:
+			return "uint8"
+		case types.Int32:
+			return "int32"
+		}
+	}
 	return types.TypeString(t, func(p *types.Package) string { return p.Name() })
 }
 
